@@ -45,6 +45,8 @@ def gen_prog(rng, profile, nslots, nprogs, pidx, malformed, names):
     for k in range(n):
         op = rng.choices(OPS, weights=w)[0]
         sl = rng.randrange(nslots)
+        if profile == 'intr' and op in ('spawn', 'interrupt') and rng.random() < 0.85:
+            sl = rng.randrange(min(2, nslots))      # slots 0-1 are where processes live in this profile
         if op == 'timeout':
             prog.append(('timeout', sl, delay(rng, malformed), val(rng)))
             if rng.random() < 0.6:
@@ -229,4 +231,70 @@ def gen_plan(rng, base: Case, cid):
         else:
             plan.append(('S', rng.randint(1, 7)))
     c.plan = plan
+    return c
+
+
+# ------------------------------------------------------------------------------------------------
+# interrupts (C04): victims with long waits and the five handler behaviours, interrupters that hit them at
+# chosen instants (before, exactly at, after the victim's target is due; right after spawn; several at once),
+# co-waiters on the victims' targets
+
+def gen_intr(rng, cid, mode='step'):
+    c = Case(cid, mode)
+    nv = rng.randint(1, 3)
+    shared = 10            # slots 10.. hold the victims' targets (shared with co-waiters)
+    names = 200
+    # programs 0..nv-1: victims
+    for v in range(nv):
+        prog = []
+        if rng.random() < 0.3:
+            prog.append(('log', v))
+        for k in range(rng.randint(1, 5)):
+            sl = shared + 3 * v + (k % 3)
+            kind = rng.random()
+            if kind < 0.7:
+                prog.append(('timeout', sl, rng.choice([0.5, 1, 1, 2, 2, 3, 0]), rng.randint(0, 30)))
+            elif kind < 0.85:
+                prog.append(('event', sl))
+            else:
+                prog.append(('anyof', sl, shared + 3 * v, shared + 3 * v + 1))
+            prog.append(('yield', sl, rng.choice([0, 0, 1, 1, 1, 2, 3, 11, 12])))
+            if rng.random() < 0.3:
+                prog.append(('log', 50 + k))
+        if rng.random() < 0.2:
+            prog.append(rng.choice([('ret', 7), ('raise', 'KeyError', 3)]))
+        c.progs.append(prog)
+    # program nv: the starter spawns the victims into slots 0..nv-1, maybe interrupting at once
+    starter = []
+    for v in range(nv):
+        names += 1
+        starter.append(('spawn', v, v, names))
+        if rng.random() < 0.25:
+            starter.append(('interrupt', v, 90 + v))     # before the victim's first statement has run
+    if rng.random() < 0.5:
+        starter += [('yield', 0, 0)]
+    c.progs.append(starter)
+    c.mains.append((nv, 1))
+    # interrupters
+    for i in range(rng.randint(1, 4)):
+        prog = []
+        for k in range(rng.randint(1, 4)):
+            prog += [('timeout', 30 + i, rng.choice([0, 0.5, 1, 1, 2, 2, 3, 4]), None), ('yield', 30 + i, 0)]
+            for _ in range(rng.choice([1, 1, 1, 2, 3])):
+                prog.append(('interrupt', rng.randrange(nv), 10 * i + k))
+        if rng.random() < 0.15:
+            prog.append(('interrupt', 40, 1))            # slot 40 holds the interrupter itself: self-interrupt is refused
+        c.progs.append(prog)
+        c.mains.append((len(c.progs) - 1, 2 + i))
+    # co-waiters on the victims' targets, and triggerers of their shared events
+    for i in range(rng.randint(0, 3)):
+        v = rng.randrange(nv)
+        sl = shared + 3 * v + rng.randrange(3)
+        prog = [('timeout', 35 + i, rng.choice([0, 0.5, 1]), None), ('yield', 35 + i, 0)]
+        if rng.random() < 0.6:
+            prog += [('yield', sl, rng.choice([0, 3])), ('log', 70 + i)]
+        else:
+            prog += [rng.choice([('succeed', sl, 5), ('fail', sl, 'ValueError', 4)])]
+        c.progs.append(prog)
+        c.mains.append((len(c.progs) - 1, 20 + i))
     return c
